@@ -7,6 +7,8 @@ LEVEL = "model_checking"
 def plan(tier, seed):
     js, n = L.jobs([L.bitpacked, L.rle, L.bitpacked1, L.scalars, L.hybrid, L.delta, L.encoders], tier,
                    prefix="C11")
+    from . import bytearray as BA
+    js += BA.jobs("C11", tier)
     js.append(dict(name="C11-translator-validation", kind="pyfunc", timeout=600,
                    payload=dict(func="vf.llsym.validate:run", kwargs=dict(seed=seed, n=40 if tier == "quick" else 400))))
     extra = dict(
@@ -18,7 +20,6 @@ def plan(tier, seed):
                 "zigzag and width_from_max_int over the full 64-bit range; hybrid streams of <=3 runs; delta blocks "
                 "8/1,16/2,128/4 with miniblock widths 0..64; encoders widths 0..32 x <=17 values. %d harnesses."
                 % (tier, "1..2" if tier == "quick" else "1..5", 25 if tier == "quick" else 65, n)),
-        outside="larger run counts / more runs per stream; speedups.pack/unpack_byte_array (object-level, see C12 "
-                "note); numpy packbits used by the writer for booleans; malformed streams",
+        outside="larger run counts / more runs per stream; numpy packbits used by the writer for booleans; malformed streams",
         stubs=L.STUBS, assumptions=L.ASSUME)
     return js, extra
